@@ -1,5 +1,6 @@
 import GixModel.Lemmas.C56
 import GixModel.Lemmas.C56Toy
+import GixModel.Lemmas.C56StoredD
 import GixModel.Lemmas.C11
 /-
 C56 — Streaming compression and hashing do not depend on chunking.  PROPERTY THEOREMS ONLY.
@@ -106,6 +107,36 @@ example (chunks : List Bytes) :=
   deflate_then_inflate_is_identity Toy.compressorOk Toy.decompressorOk
     (fun w c => Toy.compressorOk.rank w.comp c.length .none + 1) (fun w => Toy.compressorOk.rank w.comp 0 .finish + 1)
     (fun _ _ => Nat.lt_succ_self _) (fun _ => Nat.lt_succ_self _) chunks
+
+/-! ### the codec the drivers run -/
+
+/-- The stored-block codec the Lean drivers EXECUTE (`Stored.compressor`: header, stored blocks of at most
+`min 65535 (cap - 16)` bytes, final empty block, Adler-32; `Stored.decompressor`: a byte-wise inflater for
+stored blocks that checks LEN/NLEN and the Adler-32) satisfies both contracts, relative to
+`Stored.IsStoredNE z d` ("`z` is a zlib stream of non-empty stored blocks with content `d`"). So every theorem
+above holds for the code the differential checks compare with the real `flate2`. -/
+theorem stored_codec_ok :
+    Nonempty (CompressorOk Stored.compressor Stored.IsStoredNE) ∧
+    Nonempty (DecompressorOk Stored.decompressor Stored.IsStoredNE) :=
+  ⟨⟨Stored.compressorOk⟩, ⟨Stored.decompressorOk⟩⟩
+
+/-- the end-to-end theorem for the executed codec WITH THE FUEL THE DRIVERS PASS (`Stored.fuelFor`): any
+sequence of writes and a flush give a stream of non-empty stored blocks whose content is the concatenated
+input, and `inflate::read` of it in any chunking gives the input back -/
+theorem stored_deflate_then_inflate (chunks : List Bytes) :
+    ∃ z, deflateChunks Stored.compressor (fun w b => Stored.fuelFor w b.length) (fun w => Stored.fuelFor w 0)
+        (Writer.new Stored.compressor) chunks = .ok z ∧
+      Stored.IsStoredNE z chunks.flatten ∧
+      ∀ (rd : BufRead), rd.flatten = z → (∀ c ∈ rd, c ≠ []) → ∀ dstLen, chunks.flatten.length ≤ dstLen →
+        ∃ r, inflateRead Stored.decompressor Stored.decompressor.init rd dstLen = .ok r ∧ r.out = chunks.flatten := by
+  obtain ⟨z, h1, h2⟩ := chunking_independent_deflate Stored.compressorOk
+    (fun w b => Stored.fuelFor w b.length) (fun w => Stored.fuelFor w 0)
+    (by intro w c; simp only [Stored.compressorOk, Stored.fuelFor]; split <;> omega)
+    (by intro w; simp only [Stored.compressorOk, Stored.fuelFor]; split <;> omega) chunks
+  refine ⟨z, h1, h2, ?_⟩
+  intro rd hrd hne dstLen hlen
+  obtain ⟨r, hr1, hr2⟩ := inflate_read_chunking_independent Stored.decompressorOk z chunks.flatten h2 rd hrd hne dstLen
+  exact ⟨r, hr1, by rw [hr2, List.take_of_length_le hlen]⟩
 
 /-! ### hashing (for ANY block function `f`) -/
 
